@@ -653,7 +653,7 @@ def run(ctx):
                     case = G.gen_history(rng, fmt, "merge", force, path, opts=draw_opts(rng, fmt, shuffle=bool(r % 2)))
                     account(ctx, case, execute(ctx, case))
     # 2. the other strategies (and more merge), random force sets
-    for _ in range(ctx.budget(3400, 60000)):
+    for _ in range(ctx.budget(3000, 60000)):
         strategy = rng.choice(["error", "warning", "replace", "create_unique", "create_unique", "merge"])
         force = rng.choice(M.subsets())
         fmt = rng.choice(["gff3", "gtf"])
@@ -680,7 +680,7 @@ def run(ctx):
         case = G.gen_multirun(rng, fmt, strategy, force, opts=draw_opts(rng, fmt))
         account(ctx, case, execute(ctx, case))
     # 2d. one history under every value of the documented verbose argument
-    for _ in range(ctx.budget(160, 3000)):
+    for _ in range(ctx.budget(120, 3000)):
         strategy = rng.choice(list(M.STRATEGIES) + ["merge", "merge"])
         force = rng.choice(M.subsets()) if strategy == "merge" else []
         fmt = rng.choice(["gff3", "gtf"])
@@ -696,7 +696,7 @@ def run(ctx):
         if done == 3:
             ctx.mon("one history run under verbose False / True / 'debug' (each judged against the model)")
     # 2e. extra columns that differ between the arrivals / arrivals in different genomic bins, every strategy
-    for _ in range(ctx.budget(600, 10000)):
+    for _ in range(ctx.budget(480, 10000)):
         strategy = rng.choice(["replace", "replace", "warning", "create_unique", "merge", "error"])
         force = rng.choice(M.subsets()) if strategy == "merge" else []
         fmt = rng.choice(["gff3", "gtf"])
